@@ -277,3 +277,78 @@ package ast
 //@   at call ast.ParentNode.Children#0 assert[children-of-the-body;C01,C07] arg0 == n.Body
 //@   at call ast.ParentNode.Children#0 after set r = res
 //@   ensures[children-are-the-bodys-children;C01,C07] sameslice(result, r)
+
+// ---------------------------------------------------------------------------
+// C17 (printer side, continued): the printers of the remaining expression
+// nodes print every argument / item / access / directive, each exactly once
+// and in order, and the null-safe accesses print their question mark.
+//@ func (*FunctionNode).String
+//@   props C17
+//@   nosafety
+//@   pure
+//@   ghost printed int = 0
+//@   at call ast.Node.String#0 assert[the-next-argument;C17] arg0 == n.Args[printed]
+//@   at call ast.Node.String#0 after set printed = printed + 1
+//@   ensures[every-argument-printed-once-in-order;C17] printed == len(n.Args)
+//@   loop 0
+//@     invariant[arguments-so-far;C17] printed == rangeindex + 1 && printed <= len(n.Args)
+//@ func (*ListLiteralNode).String
+//@   props C17
+//@   nosafety
+//@   pure
+//@   ghost printed int = 0
+//@   at call ast.Node.String#0 assert[the-next-item;C17] arg0 == n.Items[printed]
+//@   at call ast.Node.String#0 after set printed = printed + 1
+//@   ensures[every-item-printed-once-in-order;C17] printed == len(n.Items)
+//@   loop 0
+//@     invariant[items-so-far;C17] printed == rangeindex + 1 && printed <= len(n.Items)
+//@ func (*DataRefNode).String
+//@   props C17
+//@   nosafety
+//@   pure
+//@   ghost printed int = 0
+//@   at call ast.Node.String#0 assert[the-next-access;C17] arg0 == n.Access[printed]
+//@   at call ast.Node.String#0 after set printed = printed + 1
+//@   ensures[every-access-printed-once-in-order;C17] printed == len(n.Access)
+//@   loop 0
+//@     invariant[accesses-so-far;C17] printed == rangeindex + 1 && printed <= len(n.Access)
+//@ func (*PrintNode).String
+//@   props C17
+//@   nosafety
+//@   pure
+//@   ghost printed int = 0
+//@   at call ast.Node.String#0 assert[the-printed-expression-first;C17] arg0 == n.Arg && printed == 0
+//@   at call (*PrintDirectiveNode).String#0 assert[the-next-directive;C17] arg0 == n.Directives[printed]
+//@   at call (*PrintDirectiveNode).String#0 after set printed = printed + 1
+//@   ensures[every-directive-printed-once-in-order;C17] printed == len(n.Directives)
+//@   loop 0
+//@     invariant[directives-so-far;C17] printed == rangeindex + 1 && printed <= len(n.Directives)
+//@ func (*PrintDirectiveNode).String
+//@   props C17
+//@   nosafety
+//@   pure
+//@   ghost printed int = 0
+//@   at call ast.Node.String#0 assert[the-next-argument;C17] arg0 == n.Args[printed]
+//@   at call ast.Node.String#0 after set printed = printed + 1
+//@   ensures[every-argument-printed-once-in-order;C17] printed == len(n.Args)
+//@   loop 0
+//@     invariant[arguments-so-far;C17] printed == rangeindex + 1 && printed <= len(n.Args)
+//@ func (*DataRefKeyNode).String
+//@   props C17
+//@   nosafety
+//@   stringsexact
+//@   pure
+//@   ensures[null-safe-key-access-prints-its-question-mark;C17] len(result) == len(n.Key) + ite(n.NullSafe, 2, 1) && ite(n.NullSafe, result[0] == '?' && result[1] == '.', result[0] == '.')
+//@ func (*DataRefIndexNode).String
+//@   props C17
+//@   nosafety
+//@   stringsexact
+//@   pure
+//@   ensures[null-safe-index-access-prints-its-question-mark;C17] ite(n.NullSafe, len(result) >= 2 && result[0] == '?' && result[1] == '.', len(result) >= 1 && result[0] == '.')
+//@ func (*DataRefExprNode).String
+//@   props C17
+//@   nosafety
+//@   stringsexact
+//@   pure
+//@   at call ast.Node.String#0 assert[the-index-expression;C17] arg0 == n.Arg
+//@   ensures[null-safe-expression-access-prints-its-question-mark;C17] ite(n.NullSafe, len(result) >= 3 && result[0] == '?' && result[1] == '[', len(result) >= 2 && result[0] == '[') && result[len(result)-1] == ']'
